@@ -11,3 +11,4 @@ import Props.C18
 #print axioms C18.exp2_accurate
 #print axioms C18.log2_accurate
 #print axioms C18.expf_underflow
+#print axioms C18.expf_overflow
